@@ -983,6 +983,11 @@ impl CxxCodeBodyTranslator {
                     }
                 }
                 ConstantValue::Integer(v) => v.to_string(),
+                ConstantValue::Float(v) if v.is_nan() => "qQNaN()".to_owned(),
+                ConstantValue::Float(v) if v.is_infinite() => {
+                    // "inf" isn't a C++ token
+                    if *v > 0.0 { "qInf()" } else { "-qInf()" }.to_owned()
+                }
                 ConstantValue::Float(v) => format!("{v:e}"),
                 ConstantValue::CString(v) => format_cxx_string_literal(v),
                 ConstantValue::QString(v) => {
